@@ -173,8 +173,9 @@ def run(prop, tier, seed):
         if getattr(prop, "shape_tie", False):
             # the machine's steps are the critical sections / channel operations of the code: their syntactic skeleton
             # is re-extracted from /repo's current tree and compared with what the machine was written against
-            sd = core.lockshape_diff()
-            obligations.append(("tie:synchronisation skeleton of cache.go/store.go/ttl.go/policy.go/ring.go = lib/lockshape.expected",
+            which = prop.shape_tie if isinstance(prop.shape_tie, str) else "cache"
+            sd = core.lockshape_diff(which)
+            obligations.append(("tie:synchronisation skeleton of %s = lib/%s" % ("/".join(core.SHAPES[which][0]), core.SHAPES[which][2]),
                                 not sd, "; ".join(sd)[:600]))
             for d in sd[:6]:
                 broken.append("the code's critical sections / step order differ from the machine's: " + d)
